@@ -39,7 +39,7 @@ INFO = dict(
          'time-out of a queued request = what the real ClientTimeoutSink does: posting TimeoutError into its sink stack'],
   assumptions=['A1', 'pre-states = those satisfying the stated invariant (checked inductive); min_watermark <= max_watermark, max_watermark >= 1'],
 )
-EXPECT_COVERS = ['arrive-cached', 'arrive-new', 'arrive-queued', 'arrive-max-waiters', 'arrive-dead-cached-discarded',
+EXPECT_COVERS = ['arrival-while-connection-opening', 'arrive-cached', 'arrive-new', 'arrive-queued', 'arrive-max-waiters', 'arrive-dead-cached-discarded',
                  'release-to-waiter', 'release-skips-timed-out', 'release-cached', 'release-closed', 'release-dead-closes-pool',
                  'hist-two-completions-one-slice']
 
@@ -143,6 +143,7 @@ def jobs(tier):
         for k in range(w):
           js.append(dict(name='timeout-a%d-b%d-w%d-k%d' % (a, b, w, k), op='timeout', a=a, b=b, w=w, k=k, hi=hi, cost=1))
   js.append(dict(name='open', op='open', hi=hi, cost=1))
+  js.append(dict(name='slow-open-n3', op='slowopen', n=3, hi=hi, cost=3000, shards=8, shard_depth=3))
   kk = 6 if tier == 'quick' else 10
   js.append(dict(name='history-k%d' % kk, op='history', k=kk, hi=3, cost=5000,
                  shards=16 if tier == 'quick' else 128, shard_depth=8 if tier == 'quick' else 14))
@@ -176,6 +177,8 @@ def make_body(job):
     Conn.n = 0
     if op == 'history':
       return history(job)
+    if op == 'slowopen':
+      return slow_open(job)
     if op == 'open':
       mn, mx, ql = config(job['hi'])
       pool, prov = new_pool(mn, mx, ql)
@@ -357,3 +360,44 @@ def history(job):
     check('hist.idle-retains-at-most-min', len(live(S)) <= mn)
     check('hist.size-equals-live', pool._current_size == len(live(S)))
   check('hist.no-greenlet-error', not vtime.ERRORS)
+
+
+def slow_open(job):
+  """connections take a (symbolic) while to open; requests arrive from other greenlets in the meantime"""
+  from symex.values import fresh_real
+  mn, mx, ql = config(job['hi'])
+  pool, prov = new_pool(mn, mx, ql)
+  pool._state = ChannelState.Open
+  od = fresh_real('open_takes', 0, 3, lo_strict=True)
+  live_max = [0]
+  class SlowConn(Conn):
+    def Open(self):
+      self.opened += 1
+      ar = AsyncResult()
+      gevent.spawn_later(od, ar.set, True)
+      return ar
+  def create(props):
+    s = SlowConn(ChannelState.Open); prov.created.append(s)
+    live_max[0] = max(live_max[0], len([c for c in prov.created if not c.closed]))
+    return s
+  prov.CreateSink = create
+  S = St(); S.pool = pool; S.prov = prov; S.mn, S.mx, S.ql = mn, mx, ql; S.cached = []; S.lent = []
+  terms = []
+  def arrive(i):
+    st = ClientMessageSinkStack(); t = Terminal(); st.Push(t); terms.append((st, t))
+    if any(c.opened and not c.reqs and not c.closed for c in prov.created): cover('arrival-while-connection-opening')
+    pool.AsyncProcessRequest(st, MethodCallMessage(None, 'm', (), {}), None, None)
+  for i in range(job['n']):
+    at = fresh_real('arrive_at%d' % i, 0, 4)
+    gevent.spawn_later(at, arrive, i)
+  gevent.sleep(10)
+  settle()
+  check('slowopen.connections-never-exceed-max', live_max[0] <= mx)
+  check('slowopen.size-at-most-max', pool._current_size <= mx)
+  check('slowopen.size-equals-live', pool._current_size == len(live(S)))
+  check('slowopen.no-double', not any(c.double for c in prov.created))
+  for (st, t) in terms:
+    served = [c for c in prov.created if any(r is st for r in c.reqs)]
+    queued = [x for x in pool._waiters if x[0] is st]
+    check('slowopen.each-request-one-outcome', len(served) + len(queued) + len(t.got) == 1)
+  check('no-greenlet-error', not vtime.ERRORS)
